@@ -486,8 +486,8 @@ func genSign(g *core.Gen) {
 				}
 			}
 			cache := "c"
-			if s.form != "tap" && r.Bool() {
-				cache = "n" // engine computes the midstate itself
+			if r.Bool() {
+				cache = "n" // no midstate supplied: the engine computes it itself
 			}
 			cls := "sign-" + kind
 			if mk != "none" {
